@@ -23,7 +23,9 @@ FACETS = {1: ["xmin", "xmax"], 2: ["xmin", "xmax", "ymin", "ymax"]}
 NORMALS = {1: [(-1,), (1,)], 2: [(-1, 0), (1, 0), (0, -1), (0, 1)]}
 
 
-def bc_ob(cond, d, time, n_pts, m, sel, fshape, form, via="apply", tag_extra="", slice_solution=None, key_order=None):
+def bc_ob(cond, d, time, n_pts, m, sel, fshape, form, via="apply", tag_extra="", slice_solution=None, key_order=None, shared_fun=False,
+          sel_by_facet=None):
+    # shared_fun: one and the same callable object is given for every facet; sel_by_facet: facet -> slice (per-facet selections)
     """
     cond: 'dirichlet' | 'neumann' | dict facet-> 'dirichlet'/'neumann'/None (form == 'dict')
     sel: slice of outputs the condition applies to; fshape: shape returned by f; n_pts: border rows in the batch
@@ -36,12 +38,15 @@ def bc_ob(cond, d, time, n_pts, m, sel, fshape, form, via="apply", tag_extra="",
         din = d + (1 if time else 0)
         # the selection is relative to the network's *output*, whatever part of it is declared to be the solution
         net = Net("Nb", "nonstatio_PDE" if time else "statio_PDE", din, m, slice_solution=slice_solution)
-        fs = {fa: OpaqueFn(f"f_{fa}" if form == "dict" else "f", [(din,)], fshape) for fa in FACETS[d]}
+        fs = {fa: OpaqueFn(f"f_{fa}" if (form == "dict" and not shared_fun) else "f", [(din,)], fshape) for fa in FACETS[d]}
+        _one = {}
         def user_f(fa):
             g = fs[fa]
-            if time:
-                return lambda t, x: g(jnp.concatenate([t, x]))
-            return lambda x: g(x)
+            if shared_fun and "f" in _one:
+                return _one["f"]
+            h = (lambda t, x: g(jnp.concatenate([t, x]))) if time else (lambda x: g(x))
+            _one["f"] = h
+            return h
         bshape = (n_pts, din, F)
         def fn(th, bb, w):
             params = net.params(th)
@@ -54,7 +59,7 @@ def bc_ob(cond, d, time, n_pts, m, sel, fshape, form, via="apply", tag_extra="",
                 order = key_order or FACETS[d]
                 fun = {fa: (user_f(fa) if conds[fa] is not None else None) for fa in order}
                 cnd = {fa: conds[fa] for fa in order}
-                dim = {fa: (sel.start if via == "evaluate_int" else sel) for fa in order}
+                dim = {fa: (sel.start if via == "evaluate_int" else (sel_by_facet[fa] if sel_by_facet else sel)) for fa in order}
             else:
                 fun, cnd, dim = user_f(FACETS[d][0]), cond, sel
             if via == "apply":
@@ -70,12 +75,12 @@ def bc_ob(cond, d, time, n_pts, m, sel, fshape, form, via="apply", tag_extra="",
             return loss.evaluate(params, batch)[1]["boundary_loss"]
         def spec(th, bb, w, wrong=False):
             n = net.jet(th)
-            comps = list(range(m))[sel]
             tot = P.ZERO
             for fi, fa in enumerate(FACETS[d]):
                 cf = conds[fa]
                 if cf is None:
                     continue
+                comps = list(range(m))[sel_by_facet[fa] if sel_by_facet else sel]
                 fname = fs[fa].name
                 per = []
                 for i in range(n_pts):
@@ -137,6 +142,15 @@ def obligations(tier):
             obs.append(bc_ob({fa: "dirichlet" for fa in fac}, d, time, rows, 2, s01, (1,), "dict", via="evaluate_int"))
             obs.append(bc_ob("neumann", d, time, rows, 2, s01, (1,), "global", via="evaluate_int"))
             obs.append(bc_ob("neumann", d, time, rows, 1, s01, (1,), "global", via="evaluate"))
+            # one callable object shared by all facets, a different component on the x- and on the y-facets (no-penetration walls)
+            sbf = {fa: (s01 if i < 2 else s12) for i, fa in enumerate(fac)}
+            for cnd_ in ("dirichlet", "neumann"):
+                obs.append(bc_ob({fa: cnd_ for fa in fac}, d, time, rows, 2, s01, (1,), "dict", via="evaluate", shared_fun=True, sel_by_facet=sbf,
+                                 tag_extra=",one_function_object_for_all_facets,selection_per_facet"))
+            # every spelling the constructor accepts selects the same condition
+            for sp_ in ("vonneumann", "Von Neumann", "Dirichlet"):
+                obs.append(bc_ob(sp_, d, time, rows, 1, s01, (1,), "global", via="evaluate"))
+            obs.append(bc_ob({fa: ("vonneumann" if i % 2 else "von neumann") for i, fa in enumerate(fac)}, d, time, rows, 1, s01, (1,), "dict", via="evaluate"))
             obs.append(bc_ob(mixed, d, time, rows, 1, s01, (1,), "dict", via="evaluate"))
             # a network whose declared solution is only a part of its output: the selection still indexes the output
             for cnd_ in ("dirichlet", "neumann"):
